@@ -884,6 +884,23 @@ pub fn replay(case: &J) -> Verdict {
         Err((sig, d)) => return Err((format!("{sig}:shim"), d)),
     };
     let r = RefNs::make(&scenario_rows());
+    if let Some(h) = case["history"].as_array() {
+        // one concrete history (pair / repetition / volume families)
+        let hist: Vec<usize> = h.iter().map(|x| x.as_u64().unwrap_or(0) as usize).collect();
+        let part = Arc::new(if case["volume"] == true { partition_extreme(false) } else { partition_extreme(true) });
+        let fam = if case["volume"] == true { "volume" } else { "pairs" };
+        return match with_partition(&part, || run_history(hooks::Mode::Shim, &hist, &part)) {
+            Err(e) => Err((format!("history-panic:{fam}"), e)),
+            Ok((answers, _)) => {
+                let j = *hist.last().unwrap();
+                if answers.last().unwrap() != &cold[j] {
+                    Err((format!("history-changes-answer:{fam}"), format!("query {:?} answers {:?}, cold {:?}", queries()[j], answers.last().unwrap(), cold[j])))
+                } else {
+                    Ok(())
+                }
+            }
+        };
+    }
     if case.get("history").is_some() {
         let backend = case["backend"].as_str().unwrap_or("shim");
         if backend == "real" {
